@@ -13,6 +13,7 @@ import (
 	"time"
 
 	"github.com/go-logr/logr"
+	"github.com/pckhoi/meow"
 	"github.com/spf13/viper"
 	wrgl "github.com/wrgl/wrgl/cmd/wrgl"
 	"github.com/wrgl/wrgl/pkg/ingest"
@@ -36,7 +37,9 @@ import (
 //	           (the producer shared by merge and doctor re-ingest; no CSV involved)
 //	  columns/pknames = node of cells; rows = node of rows: the CSV AFTER parsing
 //	  (Run re-serialises them with c01CSV and checks that encoding/csv parses them back)
-//	  arrival = scheduling keys used by the model only; workers/delimiter used by Go only
+//	  arrival = scheduling keys used by the model only; workers/delimiter used by Go only;
+//	  an optional third Go-only parameter deps = ((offset ...) ...) forces the worker schedule:
+//	  block k is written only after the blocks deps[k] have been completed (gated store)
 //	observation = (status columns pk rowcount (block ...) export)
 //	  status 0 ok | 1 error; block = node of crows; export = () for kind 0, else the crows
 //	  (header first) obtained by parsing the output of wrgl export.
@@ -48,17 +51,77 @@ func init() { props["C01"] = &Prop{Gen: genC01, Run: runC01} }
 // ---- thread-safe wrapper of the repository's (not thread-safe) mock store ----
 
 type c01Store struct {
-	mu sync.Mutex
-	s  *objmock.Store
+	mu   sync.Mutex
+	s    *objmock.Store
+	gate *c01Gate // optional forced worker schedule
 }
 
 func c01NewStore() *c01Store { return &c01Store{s: objmock.NewStore()} }
+
+// c01Gate forces the order in which the inserter's workers complete blocks: the write of
+// block k (key blk/<sum>) is held back until the block-index writes (blkidx/<sum>, the last
+// store access of insertBlock before the block is recorded) of every block in deps[k] have
+// returned, plus a short pause.  Blocks are recognised by the sums the harness computes
+// itself from the expected table; if they do not match nothing is held.  A hold gives up
+// after c01GateTimeout (too few workers for the requested schedule).
+type c01Gate struct {
+	mu       sync.Mutex
+	blkOff   map[string]int
+	idxOff   map[string]int
+	deps     [][]int
+	done     []chan struct{}
+	order    []int // offsets in the order their index write returned
+	timedOut bool
+}
+
+const c01GateTimeout = 3 * time.Second
+
+func (g *c01Gate) before(k []byte) {
+	off, ok := g.blkOff[string(k)]
+	if !ok || off >= len(g.deps) || len(g.deps[off]) == 0 {
+		return
+	}
+	deadline := time.After(c01GateTimeout)
+	for _, d := range g.deps[off] {
+		if d < 0 || d >= len(g.done) {
+			continue
+		}
+		select {
+		case <-g.done[d]:
+		case <-deadline:
+			g.mu.Lock()
+			g.timedOut = true
+			g.mu.Unlock()
+			return
+		}
+	}
+	time.Sleep(20 * time.Millisecond)
+}
+
+func (g *c01Gate) after(k []byte) {
+	off, ok := g.idxOff[string(k)]
+	if !ok {
+		return
+	}
+	g.mu.Lock()
+	defer g.mu.Unlock()
+	select {
+	case <-g.done[off]:
+	default:
+		g.order = append(g.order, off)
+		close(g.done[off])
+	}
+}
 func (m *c01Store) Get(k []byte) ([]byte, error) {
 	m.mu.Lock()
 	defer m.mu.Unlock()
 	return m.s.Get(k)
 }
 func (m *c01Store) Set(k, v []byte) error {
+	if m.gate != nil {
+		m.gate.before(k)
+		defer m.gate.after(k)
+	}
 	m.mu.Lock()
 	defer m.mu.Unlock()
 	return m.s.Set(append([]byte{}, k...), append([]byte{}, v...))
@@ -102,11 +165,31 @@ type c01Case struct {
 	Arrival []int
 	Workers int
 	Delim   rune
+	Deps    [][]int // forced schedule: block k is completed only after the blocks Deps[k] (Go only)
+}
+
+func c01Deps(deps [][]int) *xt.T {
+	t := xt.N()
+	for _, d := range deps {
+		t.Add(xt.Ints(d))
+	}
+	return t
+}
+
+func c01DecodeDeps(t *xt.T) [][]int {
+	if len(t.Kids) == 0 {
+		return nil
+	}
+	deps := make([][]int, len(t.Kids))
+	for i, d := range t.Kids {
+		deps[i] = c19Ints(d)
+	}
+	return deps
 }
 
 func c01Tree(k c01Case) *xt.T {
 	return xt.N(xt.LI(k.Kind), xt.Strs(k.Columns), xt.Strs(k.PKNames), c19Rows(k.Rows), xt.L(k.RunSize),
-		xt.Ints(k.Arrival), xt.N(xt.LI(k.Workers), xt.LI(int(k.Delim))))
+		xt.Ints(k.Arrival), xt.N(xt.LI(k.Workers), xt.LI(int(k.Delim)), c01Deps(k.Deps)))
 }
 
 func c01Strs(t *xt.T) []string {
@@ -118,11 +201,15 @@ func c01Strs(t *xt.T) []string {
 }
 
 func c01Decode(c *xt.T) c01Case {
-	return c01Case{
+	k := c01Case{
 		Kind: int(c.Kids[0].N), Columns: c01Strs(c.Kids[1]), PKNames: c01Strs(c.Kids[2]),
 		Rows: c19DecodeRows(c.Kids[3]), RunSize: c.Kids[4].N, Arrival: c19Ints(c.Kids[5]),
 		Workers: int(c.Kids[6].Kids[0].N), Delim: rune(c.Kids[6].Kids[1].N),
 	}
+	if len(c.Kids[6].Kids) > 2 {
+		k.Deps = c01DecodeDeps(c.Kids[6].Kids[2])
+	}
+	return k
 }
 
 // c01CSV serialises records; every field that is empty or holds anything but
@@ -186,7 +273,10 @@ func c01Stable(records [][]string, delim rune) ([][]string, bool) {
 // ---- what a run reads back ----
 
 type c01Result struct {
-	Hang      bool // the in-process CLI command never returned
+	Order     []int  // forced schedule: offsets of the blocks in the order they were completed
+	GateLate  bool   // forced schedule: a hold timed out (too few workers)
+	SchedDiff string // non-empty: the multi-worker table differs from the one-worker table
+	Hang      bool   // the in-process CLI command never returned
 	Err       error
 	Sum       []byte
 	Tbl       *objects.Table
@@ -281,8 +371,144 @@ func c01NewRepo(ctx *Ctx) (rd *local.RepoDir, root string) {
 	return rd, root
 }
 
-// c01Ingest runs the implementation on a table case.
+// c01ExpectedBlocks returns the blocks of the table the case must produce (sort + dedupe,
+// cut at 255 rows) when keys are unique, with the key indices; ok=false otherwise.
+func c01ExpectedBlocks(k c01Case) (blocks [][][]string, pk []uint32, ok bool) {
+	pkIdx, pkOK := c01PkIndicesOf(k.Columns, k.PKNames)
+	if !pkOK {
+		return nil, nil, false
+	}
+	idx := c19PkIndices(len(k.Columns), pkIdx)
+	seen := map[string]bool{}
+	rows := make([][]string, 0, len(k.Rows))
+	for _, r := range k.Rows {
+		if len(r) != len(k.Columns) {
+			return nil, nil, false
+		}
+		ks := c19KeyString(c19KeyOf(idx, r))
+		if seen[ks] {
+			return nil, nil, false
+		}
+		seen[ks] = true
+		rows = append(rows, r)
+	}
+	sort.SliceStable(rows, func(i, j int) bool { return c19KeyLess(c19KeyOf(idx, rows[i]), c19KeyOf(idx, rows[j])) })
+	for len(rows) > 0 {
+		n := c19Min(255, len(rows))
+		blocks = append(blocks, rows[:n])
+		rows = rows[n:]
+	}
+	for _, u := range pkIdx {
+		pk = append(pk, uint32(u))
+	}
+	return blocks, pk, true
+}
+
+// c01BlockSums computes the store sums of a block and of its index the way SaveBlock /
+// SaveBlockIndex do (MeowHash of the uncompressed encodings).
+func c01BlockSums(blk [][]string, pk []uint32) (blkSum, idxSum []byte) {
+	enc := objects.NewStrListEncoder(true)
+	var buf bytes.Buffer
+	if _, err := objects.WriteBlockTo(enc, &buf, blk); err != nil {
+		panic(err)
+	}
+	bs := meow.Checksum(0, buf.Bytes())
+	idx, err := objects.IndexBlock(enc, meow.New(0), blk, pk)
+	if err != nil {
+		panic(err)
+	}
+	buf.Reset()
+	if _, err := idx.WriteTo(&buf); err != nil {
+		panic(err)
+	}
+	is := meow.Checksum(0, buf.Bytes())
+	return bs[:], is[:]
+}
+
+func c01NewGate(k c01Case) *c01Gate {
+	blocks, pk, ok := c01ExpectedBlocks(k)
+	if !ok {
+		return nil
+	}
+	g := &c01Gate{blkOff: map[string]int{}, idxOff: map[string]int{}, deps: k.Deps, done: make([]chan struct{}, len(blocks))}
+	for i, b := range blocks {
+		bs, is := c01BlockSums(b, pk)
+		g.blkOff["blk/"+string(bs)] = i
+		g.idxOff["blkidx/"+string(is)] = i
+		g.done[i] = make(chan struct{})
+	}
+	return g
+}
+
+func c01SumsEqual(a, b [][]byte) bool {
+	if len(a) != len(b) {
+		return false
+	}
+	for i := range a {
+		if !bytes.Equal(a[i], b[i]) {
+			return false
+		}
+	}
+	return true
+}
+
+// c01Ingest runs the implementation on a table case.  Multi-worker ingests of a multi-block
+// table through the API are repeated with one worker into a fresh store and compared.
 func c01Ingest(ctx *Ctx, k c01Case) *c01Result {
+	if len(k.Deps) > 0 && k.Kind != 1 {
+		if k.Store == nil {
+			k.Store = c01NewStore()
+		}
+		k.Store.gate = c01NewGate(k)
+		defer func() { k.Store.gate = nil }()
+	}
+	res := c01IngestOnce(ctx, k)
+	if k.Store != nil && k.Store.gate != nil {
+		g := k.Store.gate
+		g.mu.Lock()
+		res.Order = append([]int{}, g.order...)
+		res.GateLate = g.timedOut
+		g.mu.Unlock()
+		if sort.IntsAreSorted(res.Order) {
+			ctx.Count("forced_schedule_completed_in_offset_order")
+		} else {
+			ctx.Count("forced_schedule_completed_out_of_order")
+		}
+		if res.GateLate {
+			ctx.Count("forced_schedule_hold_timed_out")
+		}
+	}
+	if k.Kind != 1 && res.Err == nil && k.Workers >= 4 && len(res.Blocks) >= 2 {
+		k1 := k
+		k1.Store, k1.Deps, k1.Workers = nil, nil, 1
+		seq := c01IngestOnce(ctx, k1)
+		ctx.Count("compared_with_one_worker")
+		switch {
+		case seq.Err != nil:
+			res.SchedDiff = fmt.Sprintf("one worker fails: %v", seq.Err)
+		case !bytes.Equal(seq.Sum, res.Sum):
+			res.SchedDiff = fmt.Sprintf("table sum %x with %d workers, %x with one", res.Sum, k.Workers, seq.Sum)
+		case !c01SumsEqual(seq.Tbl.Blocks, res.Tbl.Blocks):
+			res.SchedDiff = "block list differs"
+		case !c01SumsEqual(seq.Tbl.BlockIndices, res.Tbl.BlockIndices):
+			res.SchedDiff = "block index list differs"
+		case c19KeyString(c01Flatten(seq.TblIdx)) != c19KeyString(c01Flatten(res.TblIdx)) || len(seq.TblIdx) != len(res.TblIdx):
+			res.SchedDiff = "table index differs"
+		}
+	}
+	return res
+}
+
+func c01Flatten(rows [][]string) []string {
+	var o []string
+	for _, r := range rows {
+		o = append(o, fmt.Sprint(len(r)))
+		o = append(o, r...)
+	}
+	return o
+}
+
+func c01IngestOnce(ctx *Ctx, k c01Case) *c01Result {
 	res := &c01Result{Cleanup: func() {}}
 	var text []byte
 	if k.Kind != 2 {
@@ -547,6 +773,30 @@ func c01Judge(k c01Case, res *c01Result, bad func(class, format string, a ...int
 	if int(tbl.RowsCount) != len(stored) {
 		bad("rowcount", "RowsCount %d but %d rows stored", tbl.RowsCount, len(stored))
 	}
+	if res.SchedDiff != "" {
+		bad("schedule-dependent-table", "%s (completion order of the blocks: %v)", res.SchedDiff, res.Order)
+	}
+	// BlockIndices[k] must be the index of Blocks[k]
+	if len(tbl.BlockIndices) != len(tbl.Blocks) {
+		bad("index-count", "%d block indices for %d blocks", len(tbl.BlockIndices), len(tbl.Blocks))
+	} else {
+		for bi, b := range res.Blocks {
+			shape := true
+			for _, r := range b {
+				if len(r) != len(k.Columns) {
+					shape = false
+				}
+			}
+			if !shape {
+				continue
+			}
+			if _, is := c01BlockSums(b, tbl.PK); !bytes.Equal(is, tbl.BlockIndices[bi]) {
+				bad("block-index-mismatch", "BlockIndices[%d] = %x is not the index of Blocks[%d] (%x); completion order %v",
+					bi, tbl.BlockIndices[bi], bi, is, res.Order)
+				break
+			}
+		}
+	}
 	for i, r := range stored {
 		if len(r) != len(k.Columns) {
 			bad("row-altered", "stored row %d has %d cells", i, len(r))
@@ -810,34 +1060,113 @@ func (g *c01Gen) randTable(maxRows int, unique bool) c01Case {
 		Workers: c01Workers[ctx.Pick(len(c01Workers))], Delim: c01Delims[ctx.Pick(len(c01Delims))]}
 }
 
+// c01ForcedSchedule returns, for a table of n blocks, a forced worker schedule: the holds
+// (deps), the matching scheduling keys for the model (arrival[i] = rank of block i in the
+// intended completion order) and the worker count it needs (effective workers = n - 2).
+//
+//	pattern 0 (n>=3): block 0 after blocks 1 and 2        -> 1 2 0 ...     2 effective workers
+//	pattern 1 (n>=4): 0 after 1, 2 after 3               -> 1 0 3 2 ...   2 effective workers
+//	pattern 2 (n>=3): 0 after 2, 1 after 0               -> 2 0 1 ...     4 effective workers
+//	pattern 3       : k after k+1 for every k (reverse)  -> n-1 ... 1 0   n effective workers
+func c01ForcedSchedule(pattern, n int) (deps [][]int, arrival []int, workers int) {
+	deps = make([][]int, n)
+	order := []int{}
+	switch pattern {
+	case 0:
+		deps[0] = []int{1, 2}
+		order = append(order, 1, 2, 0)
+		workers = 4
+	case 1:
+		deps[0], deps[2] = []int{1}, []int{3}
+		order = append(order, 1, 0, 3, 2)
+		workers = 4
+	case 2:
+		deps[0], deps[1] = []int{2}, []int{0}
+		order = append(order, 2, 0, 1)
+		workers = 6
+	default:
+		for k := 0; k < n-1; k++ {
+			deps[k] = []int{k + 1}
+		}
+		for k := n - 1; k >= 0; k-- {
+			order = append(order, k)
+		}
+		workers = n + 2
+	}
+	for k := len(order); k < n; k++ {
+		order = append(order, k)
+	}
+	arrival = make([]int, n)
+	for rank, off := range order {
+		arrival[off] = rank
+	}
+	return deps, arrival, workers
+}
+
+// forcedCases builds tables of 3..5 blocks with unique keys whose ingestion is forced to
+// complete the blocks out of offset order.
+func (g *c01Gen) forcedCases(count int) []c01Case {
+	ctx := g.ctx
+	var out []c01Case
+	for i := 0; i < count; i++ {
+		pattern := i % 4
+		nblocks := 3 + (i/4+i)%3
+		if pattern == 1 && nblocks < 4 {
+			nblocks = 4
+		}
+		nrows := nblocks * 255
+		if i%2 == 1 {
+			nrows -= 1 + ctx.Pick(200) // last block partial
+		}
+		rows := make([][]string, nrows)
+		for j := range rows {
+			rows[j] = []string{fmt.Sprintf("%04d", j), c01Cells[ctx.Pick(len(c01Cells))], fmt.Sprint(j % 7)}
+		}
+		ctx.Rng.Shuffle(len(rows), func(a, b int) { rows[a], rows[b] = rows[b], rows[a] })
+		deps, arrival, workers := c01ForcedSchedule(pattern, nblocks)
+		kind := 0
+		if i%3 == 2 {
+			kind = 2
+		}
+		pk := []string{"a"}
+		if i%5 == 4 {
+			pk = nil
+		}
+		out = append(out, c01Case{Kind: kind, Columns: []string{"a", "b", "c"}, PKNames: pk, Rows: rows,
+			RunSize: []uint64{g.huge, 4096, 64}[i%3], Arrival: arrival, Workers: workers, Delim: ',', Deps: deps})
+		ctx.Count(fmt.Sprintf("forced_schedule_pattern_%d", pattern))
+	}
+	return out
+}
+
 func genC01(ctx *Ctx) []Case {
 	g := &c01Gen{ctx: ctx, huge: uint64(1) << 40}
 	ab := []string{"a", "b"}
 	// ---- witnesses ----
-	g.add("witness", true, c01Case{nil, 0, ab, []string{"a"}, [][]string{{"", "1"}, {"x", "2"}}, g.huge, nil, 1, ','})    // 8d128f5
-	g.add("witness", true, c01Case{nil, 0, ab, []string{"a"}, [][]string{{"", "1"}, {"x", "2"}}, 1, []int{1, 0}, 4, ';'}) // spilled
+	g.add("witness", true, c01Case{nil, 0, ab, []string{"a"}, [][]string{{"", "1"}, {"x", "2"}}, g.huge, nil, 1, ',', nil})    // 8d128f5
+	g.add("witness", true, c01Case{nil, 0, ab, []string{"a"}, [][]string{{"", "1"}, {"x", "2"}}, 1, []int{1, 0}, 4, ';', nil}) // spilled
 	big := func(n int) string { return strings.Repeat("z", n) }
 	g.add("witness", true, c01Case{nil, 0, []string{"a", "b", "c", "d"}, []string{"a"},
-		[][]string{{"k", big(30000), big(30000), big(30000)}, {"j", "1", "2", "3"}}, g.huge, nil, 1, ','}) // eebb087 row > 64KiB
-	g.add("witness", true, c01Case{nil, 0, ab, []string{"a"}, [][]string{{"k", big(65535)}, {"j", "1"}}, 100, nil, 3, ','})
-	g.add("witness", true, c01Case{nil, 0, ab, []string{"a"}, [][]string{{"k", big(65536)}, {"j", "1"}}, g.huge, nil, 1, ','}) // refused
-	g.add("witness", true, c01Case{nil, 0, ab, []string{"a"}, [][]string{{"j", "1"}, {"k", big(70000)}}, 1, nil, 4, ','})      // 9a70dee
-	g.add("witness", true, c01Case{nil, 0, ab, []string{"nope"}, [][]string{{"j", "1"}}, 1, nil, 1, ','})                      // unknown key
-	g.add("witness", true, c01Case{nil, 0, []string{"a"}, []string{"a"}, [][]string{{""}, {"x"}}, g.huge, nil, 1, ','})
-	g.add("witness", true, c01Case{nil, 0, []string{"unnamed__1", "", "k"}, []string{"k"}, [][]string{{"1", "2", "b"}, {"3", "4", "a"}}, g.huge, nil, 1, ','}) // renamed to unnamed__2
-	g.add("witness", true, c01Case{nil, 0, ab, []string{"a", "a"}, [][]string{{"2", "x"}, {"1", "y"}, {"2", "z"}}, 1, nil, 4, ','})                            // e2f1265 key column named twice: refused
-	g.add("witness", true, c01Case{nil, 2, ab, []string{"b", "a", "b"}, [][]string{{"2", "x"}, {"1", "y"}}, 4096, nil, 1, ','})
-	g.add("witness", true, c01Case{nil, 0, []string{"a", "a", "b"}, []string{"a"}, [][]string{{"1", "2", "x"}, {"1", "1", "y"}, {"1", "2", "z"}}, 1, nil, 1, ','}) // KeyIndices takes every matching column
-	g.add("witness", true, c01Case{nil, 0, []string{"", "k", ""}, []string{"k"}, [][]string{{"1", "b", "2"}, {"3", "a", "4"}}, 1, nil, 1, ','})                    // two empty names
-	g.add("witness", true, c01Case{nil, 1, []string{"a"}, []string{"a"}, [][]string{{""}, {"x"}}, 4096, nil, 1, ','})                                              // known finding (export)
-	g.add("witness", true, c01Case{nil, 1, ab, []string{"a"}, [][]string{{"", ""}, {"x", "y"}}, 4096, nil, 1, ','})
+		[][]string{{"k", big(30000), big(30000), big(30000)}, {"j", "1", "2", "3"}}, g.huge, nil, 1, ',', nil}) // eebb087 row > 64KiB
+	g.add("witness", true, c01Case{nil, 0, ab, []string{"a"}, [][]string{{"k", big(65535)}, {"j", "1"}}, 100, nil, 3, ',', nil})
+	g.add("witness", true, c01Case{nil, 0, ab, []string{"a"}, [][]string{{"k", big(65536)}, {"j", "1"}}, g.huge, nil, 1, ',', nil}) // refused
+	g.add("witness", true, c01Case{nil, 0, ab, []string{"a"}, [][]string{{"j", "1"}, {"k", big(70000)}}, 1, nil, 4, ',', nil})      // 9a70dee
+	g.add("witness", true, c01Case{nil, 0, ab, []string{"nope"}, [][]string{{"j", "1"}}, 1, nil, 1, ',', nil})                      // unknown key
+	g.add("witness", true, c01Case{nil, 0, []string{"a"}, []string{"a"}, [][]string{{""}, {"x"}}, g.huge, nil, 1, ',', nil})
+	g.add("witness", true, c01Case{nil, 0, []string{"unnamed__1", "", "k"}, []string{"k"}, [][]string{{"1", "2", "b"}, {"3", "4", "a"}}, g.huge, nil, 1, ',', nil}) // renamed to unnamed__2
+	g.add("witness", true, c01Case{nil, 0, ab, []string{"a", "a"}, [][]string{{"2", "x"}, {"1", "y"}, {"2", "z"}}, 1, nil, 4, ',', nil})                            // e2f1265 key column named twice: refused
+	g.add("witness", true, c01Case{nil, 2, ab, []string{"b", "a", "b"}, [][]string{{"2", "x"}, {"1", "y"}}, 4096, nil, 1, ',', nil})
+	g.add("witness", true, c01Case{nil, 0, []string{"a", "a", "b"}, []string{"a"}, [][]string{{"1", "2", "x"}, {"1", "1", "y"}, {"1", "2", "z"}}, 1, nil, 1, ',', nil}) // KeyIndices takes every matching column
+	g.add("witness", true, c01Case{nil, 0, []string{"", "k", ""}, []string{"k"}, [][]string{{"1", "b", "2"}, {"3", "a", "4"}}, 1, nil, 1, ',', nil})                    // two empty names
+	g.add("witness", true, c01Case{nil, 1, []string{"a"}, []string{"a"}, [][]string{{""}, {"x"}}, 4096, nil, 1, ',', nil})                                              // known finding (export)
+	g.add("witness", true, c01Case{nil, 1, ab, []string{"a"}, [][]string{{"", ""}, {"x", "y"}}, 4096, nil, 1, ',', nil})
 	{
 		var rows [][]string
 		for i := 0; i < 300; i++ {
 			rows = append(rows, []string{fmt.Sprintf("%04d", i), "v"})
 		}
 		rows = append(rows, []string{"0254", "dup"})
-		g.add("witness", true, c01Case{nil, 0, ab, []string{"a"}, rows, g.huge, []int{1, 0}, 4, ','}) // fa79010
+		g.add("witness", true, c01Case{nil, 0, ab, []string{"a"}, rows, g.huge, []int{1, 0}, 4, ',', nil}) // fa79010
 	}
 	// ---- exhaustive tiny scope: cells {"", a, b}; every key choice; run sizes 1 / ~2 rows / none ----
 	vals := []string{"", "a", "b"}
@@ -865,7 +1194,7 @@ func genC01(ctx *Ctx) []Case {
 			for pi, pk := range pks {
 				for ri, rs := range []uint64{1, 17, g.huge} {
 					g.add("exh", len(prefix) >= 2, c01Case{nil, 0, c01ColNames(ncols), pk, prefix, rs, []int{ri, pi % 2},
-						c01Workers[(pi+ri)%len(c01Workers)], ','})
+						c01Workers[(pi+ri)%len(c01Workers)], ',', nil})
 					ctx.Count("exhaustive_cases")
 				}
 			}
@@ -911,6 +1240,14 @@ func genC01(ctx *Ctx) []Case {
 		}
 		ctx.Count(fmt.Sprintf("bigcell_%d", ln))
 		g.add("bigcell", true, k)
+	}
+	// ---- forced worker schedules: blocks complete out of offset order ----
+	nf := 4
+	if ctx.Thorough() {
+		nf = 12
+	}
+	for _, k := range g.forcedCases(nf) {
+		g.add("forced-schedule", true, k)
 	}
 	// ---- through the CLI: wrgl commit + wrgl export ----
 	nc := 8
